@@ -149,15 +149,16 @@ type Spec struct {
 	RtBackup        uint16    `json:"rt_backup"`
 	// scheduling constraints of the runtime: per-entity node cap (0 = none), minimum pool size above the group size,
 	// validator-set membership of the node's entity
-	RtMaxNodes       uint16      `json:"rt_max_nodes"`
-	RtMinPoolExtra   uint16      `json:"rt_min_pool_extra"`
-	RtValidatorSet   bool        `json:"rt_validator_set"`
-	RtStragglers     uint16      `json:"rt_stragglers"`
-	RtRoundTimeout   int64       `json:"rt_round_timeout"`
-	WithVault        bool        `json:"with_vault"`
+	RtMaxNodes     uint16 `json:"rt_max_nodes"`
+	RtMinPoolExtra uint16 `json:"rt_min_pool_extra"`
+	RtValidatorSet bool   `json:"rt_validator_set"`
+	RtOwnStake     bool   `json:"rt_own_stake"`
+	RtStragglers   uint16 `json:"rt_stragglers"`
+	RtRoundTimeout int64  `json:"rt_round_timeout"`
+	WithVault      bool   `json:"with_vault"`
 	// GenesisVaults: per vault {balance, withdraw limit amount, limit interval} of vaults that exist from genesis
 	// (created by user 0, admins users 0 and 1, every user up to the fourth holds the withdraw policy).
-	GenesisVaults [][3]uint64 `json:"genesis_vaults"`
+	GenesisVaults    [][3]uint64 `json:"genesis_vaults"`
 	CrossDelegations [][3]uint64 `json:"cross_delegations"` // (from user idx, to entity idx, amount)
 	Debonding        [][3]uint64 `json:"debonding"`         // (from user idx, to entity idx, amount) at epoch base+1..
 }
@@ -209,7 +210,8 @@ func BuildGenesis(spec *Spec) (*World, error) {
 		Parameters: registry.ConsensusParameters{
 			MaxNodeExpiration: beacon.EpochTime(spec.MaxNodeExp),
 			EnableRuntimeGovernanceModels: map[registry.RuntimeGovernanceModel]bool{
-				registry.GovernanceEntity: true,
+				registry.GovernanceEntity:  true,
+				registry.GovernanceRuntime: true,
 			},
 			GasCosts: transaction.Costs{
 				registry.GasOpRegisterEntity:          transaction.Gas(spec.GasOp),
@@ -439,6 +441,23 @@ func BuildGenesis(spec *Spec) (*World, error) {
 			continue
 		}
 		st.Delegations[eaddr][uaddr] = d
+	}
+	// the runtime's own account holds escrow (a prerequisite for switching the runtime to runtime governance, where
+	// the runtime's stake claim moves from the owning entity's account to the runtime's account)
+	if spec.WithRuntime && spec.RtOwnStake && len(w.Users) > 0 {
+		raddr := staking.NewRuntimeAddress(RuntimeID)
+		ra := acct(raddr)
+		uaddr := staking.NewAddress(w.Users[0].Public())
+		amount := 10*spec.ThresholdNode + 10
+		src, amt := q(amount), q(amount)
+		d := &staking.Delegation{}
+		if _, err := ra.Escrow.Active.Deposit(&d.Shares, &src, &amt); err == nil {
+			_ = total.Add(&amt)
+			if st.Delegations[raddr] == nil {
+				st.Delegations[raddr] = map[staking.Address]*staking.Delegation{}
+			}
+			st.Delegations[raddr][uaddr] = d
+		}
 	}
 	// debonding delegations
 	for i, dd := range spec.Debonding {
